@@ -208,7 +208,7 @@ def shapes(tier):
     if tier == "quick":
         return [(6, 1, 1, 1), (7, 2, 0, 1), (7, 0, 2, 1)]
     return [(8, 1, 1, 2), (9, 2, 1, 1), (9, 1, 2, 1), (8, 2, 2, 1),
-            (8, 3, 0, 1), (10, 0, 3, 2)]
+            (7, 3, 0, 1), (10, 0, 3, 2)]
 
 
 def worker(args):
@@ -233,7 +233,7 @@ def worker(args):
 def main(tier, replay_file=None):
     ck = common.Check(
         "C28", tier, "model_checking", FUNCTIONS,
-        bounds=dict(history="6..7 (thorough 8..10) cycles including "
+        bounds=dict(history="6..7 (thorough 7..10) cycles including "
                             "initialisation",
                     application="1..2 (3) writes of 1..30 bytes (symbolic "
                                 "length and content) at engine-chosen cycles",
